@@ -522,12 +522,24 @@ def oracle_master(case, rec):
     sil = int(case["silence"])
     size = int(case["size"])
     names = list(case["measures"])
+    directed = bool(case.get("directed"))
+    if directed:
+        # Newman's measure is also computed for directed networks (link
+        # directions as given): two thirds of the links become one-way
+        A = A.copy()
+        for i, j in case["edges"]:
+            if (i + 2 * j) % 3 == 0:
+                A[j, i] = 0
+            elif (i + 2 * j) % 3 == 1:
+                A[i, j] = 0
+        names = ["newman"]
+        rec.label("directed_one_way_links")
 
     def make(level):
         return Network(adjacency=A.copy(), node_weights=w.copy(),
-                       directed=False, silence_level=level)
+                       directed=directed, silence_level=level)
 
-    comps = _components(A)
+    comps = _components(((A + A.T) > 0).astype(np.int8))
     chunks = [_expected_chunks(len(c), size) for c in comps]
     rec.label("components=%d" % min(len(comps), 4))
     rec.label("max_jobs_per_component=%d" % max(len(c) for c in chunks))
@@ -984,6 +996,7 @@ def master_cases(draw):
                           st.integers(2, n + 2)))
     case = dict(net)
     case.update({
+        "directed": draw(st.integers(0, 5)) == 0,
         "measures": names, "size": size,
         # more weight on level 0 for Arenas: levels >= 1 lie behind KF-C19-1
         "silence": draw(st.sampled_from([0, 0, 0, 0, 0, 1, 2, 3] if heavy
